@@ -47,7 +47,7 @@ class SimFS:
         self.bufsize = bufsize
         self.fds: dict[int, str] = {}
         self._fd = itertools.count(10)
-        self._uuid = itertools.count(1)
+        self._uuid_n: dict = {}
         self.syscalls = 0
         self.log: list = []  # (proc, syscall, args) for replays
         self.split_plan: dict = {}  # proc idx -> {write ordinal: [cut offsets]}
@@ -81,6 +81,9 @@ class SimFS:
                 self.sched.proc_crashed(p)
             raise Crashed()
         self.proc_syscalls[p] = n + 1
+        # the call p is about to make is part of p's local state (its "program counter"): fold it
+        # into the digest BEFORE the scheduling point, so two different points never share a key
+        self.note(p, (name,) + tuple(bytes(a) if isinstance(a, bytearray) else a for a in args))
         if self.sched is not None and p >= 0:
             self.sched.point("sys", name)
         if p in self.crashed:
@@ -88,7 +91,6 @@ class SimFS:
         self.syscalls += 1
         brief = tuple(a if not isinstance(a, (bytes, bytearray)) else len(a) for a in args)
         self.log.append((p, name) + brief)
-        self.note(p, (name,) + tuple(bytes(a) if isinstance(a, bytearray) else a for a in args))
         paths = [a for a in args if isinstance(a, str) and a.startswith("/")]
         if paths:
             ps = self.poll.setdefault(p, set())
@@ -97,9 +99,12 @@ class SimFS:
                 ps.add(self._resolve(x))
         for h in self.hooks:
             h(p, name, args)
-        if mutating and self.sched is not None:
+
+    def mutated(self, *paths: str) -> None:
+        """A syscall really changed these paths: wake the pollers that have looked at them."""
+        if self.sched is not None:
             touched = set(paths) | {self._resolve(x) for x in paths}
-            self.sched.progress(p, touched)
+            self.sched.progress(self.proc(), touched)
 
     def note(self, p: int, what: Any) -> None:
         """Fold an observation of process p (syscall + arguments, or its result) into the running
@@ -144,6 +149,7 @@ class SimFS:
         if link in self.files:
             raise self.err(FileExistsError(errno.EEXIST, "File exists", link))
         self.files[link] = _File(link=target, mtime=self.clock)
+        self.mutated(link)
 
     def os_open(self, path: str, flags: int, mode: int = 0o777) -> int:
         self._sys("os.open", path, flags, mutating=True)
@@ -153,6 +159,7 @@ class SimFS:
             if not flags & _real_os.O_CREAT:
                 raise self.err(FileNotFoundError(errno.ENOENT, "No such file", path))
             self.files[path] = _File(mtime=self.clock)
+            self.mutated(path)
         fd = next(self._fd)
         self.fds[fd] = path
         return fd
@@ -166,12 +173,14 @@ class SimFS:
         if src not in self.files:
             raise self.err(FileNotFoundError(errno.ENOENT, "No such file", src))
         self.files[dst] = self.files.pop(src)
+        self.mutated(src, dst)
 
     def unlink(self, path: str) -> None:
         self._sys("unlink", path, mutating=True)
         if path not in self.files:
             raise self.err(FileNotFoundError(errno.ENOENT, "No such file", path))
         del self.files[path]
+        self.mutated(path)
 
     def fsync(self, fd: int) -> None:
         self._sys("fsync", fd)
@@ -195,6 +204,7 @@ class SimFS:
                 return
             f.data += data[a:b]
             f.mtime = self.clock
+            self.mutated(path)
 
     def sys_read(self, path: str, offset: int, n: int) -> bytes:
         self._sys("read", path, offset, n)
@@ -208,6 +218,7 @@ class SimFS:
         f = self.files[path]
         del f.data[size:]
         f.mtime = self.clock
+        self.mutated(path)
 
     # -- open() -----------------------------------------------------------------------------------
     def open(self, path: str, mode: str = "r", *a: Any, **k: Any) -> "FakeFile":
@@ -220,11 +231,13 @@ class SimFS:
             if not creating and "x" not in mode:
                 raise self.err(FileNotFoundError(errno.ENOENT, "No such file", path))
             self.files[real] = _File(mtime=self.clock)
+            self.mutated(real)
         elif "x" in mode:
             raise self.err(FileExistsError(errno.EEXIST, "File exists", path))
         if "w" in mode:
             self.files[real].data = bytearray()
             self.files[real].mtime = self.clock
+            self.mutated(real)
         fd = next(self._fd)
         self.fds[fd] = real
         return FakeFile(self, real, mode, fd)
@@ -245,13 +258,18 @@ class SimFS:
         # the duration is virtual: an ordinary sleep does not move the clock (keeps states mergeable);
         # the clock only jumps, past the grace period, when nobody else can run
         if self.sched is not None and p >= 0:
+            self.note(p, ("sleep", secs))
             self.sched.sleep(p)
             self.poll[p] = set()
         if p in self.crashed:
             raise Crashed()
 
     def uuid4(self) -> _uuid.UUID:
-        return _uuid.UUID(int=(0xF5 << 100) | next(self._uuid), version=4)
+        # per-process counter: names must not depend on the interleaving of other processes
+        p = self.proc()
+        n = self._uuid_n.get(p, 0) + 1
+        self._uuid_n[p] = n
+        return _uuid.UUID(int=(0xF5 << 100) | ((p + 2) << 40) | n, version=4)
 
 
 class FakeFile:
@@ -407,6 +425,7 @@ class _FakeOS:
     O_CREAT, O_EXCL, O_WRONLY, O_RDWR, O_RDONLY, O_APPEND = (
         _real_os.O_CREAT, _real_os.O_EXCL, _real_os.O_WRONLY, _real_os.O_RDWR, _real_os.O_RDONLY, _real_os.O_APPEND)
     path = _FakePath()
+    SEEK_SET, SEEK_CUR, SEEK_END = 0, 1, 2
     sep = _real_os.sep
     name = _real_os.name
     stat_result = _real_os.stat_result
@@ -507,6 +526,23 @@ def install() -> None:
     jf.os = _FakeOS()  # type: ignore[assignment]
     jf.time = _FakeTime()  # type: ignore[assignment]
     jf.uuid = _FakeUUID()  # type: ignore[assignment]
+    # wall-clock timestamps end up in the journal records: freeze them, or no two executions would
+    # ever reach the same file image (state caching) - observations only use their None-ness
+    import datetime as _dt
+
+    import optuna.storages.journal._storage as js
+
+    class _FrozenDT(_dt.datetime):
+        @classmethod
+        def now(cls, tz: Any = None) -> "_dt.datetime":
+            return _dt.datetime(2022, 2, 2, 2, 2, 2, 222222)
+
+    class _FakeDatetimeModule:
+        datetime = _FrozenDT
+        timedelta = _dt.timedelta
+        date = _dt.date
+
+    js.datetime = _FakeDatetimeModule()  # type: ignore[assignment]
     _installed = True
 
 
@@ -522,6 +558,11 @@ def uninstall() -> None:
     jf.os = _real_os  # type: ignore[assignment]
     jf.time = time  # type: ignore[assignment]
     jf.uuid = uuid  # type: ignore[assignment]
+    import datetime as _dt
+
+    import optuna.storages.journal._storage as js
+
+    js.datetime = _dt  # type: ignore[assignment]
     _installed = False
 
 
